@@ -162,6 +162,10 @@ harness!(se_take__s8m0_4a, se_elem, S8M0_4A, El::Take);
 harness!(se_get__s8_8g4, se_elem, S8_8G4, El::Get);
 harness!(se_get_or_insert__u4f, se_elem, U4F, El::GetOrInsert);
 harness!(se_get_or_insert__s8_4a, se_elem, S8_4A, El::GetOrInsert);
+harness!(se_get_or_insert__s8m0_4a, se_elem, S8M0_4A, El::GetOrInsert);
+harness!(se_get_or_insert_with__s8m0_4a, se_elem, S8M0_4A, El::GetOrInsertWith);
+harness!(se_insert__s8m0_4a, se_elem, S8M0_4A, El::Insert);
+harness!(se_get__s8m0_4a, se_elem, S8M0_4A, El::Get);
 harness!(se_get_or_insert_with__s8_8g4, se_elem, S8_8G4, El::GetOrInsertWith);
 harness!(se_get_or_insert_owned__u4f, se_elem, U4F, El::GetOrInsertOwned);
 harness!(se_retain__s8_8g0, se_elem, S8_8G0, El::Retain);
